@@ -140,6 +140,33 @@ def handler : Handler := fun op inp out =>
           ("minimal-code-is-the-least-code", isLeastCode best (cms.map (·.1)))])
       | _ => (model, fail "no-codes-returned")
     | none => bad
+  | "history" =>
+    -- IN k sym_1 … sym_k ; OUT (canonical(sym_j) canonical(canonical(sym_j))) for j = 1..k
+    match run (do let k ← P.nat; P.rep k P.rawSym) inp with
+    | some ss =>
+      let model := joinToks (ss.map fun s =>
+        let m1 := modelCanon s
+        let m2 := match m1 with
+          | .ok c => canonical c
+          | o => o
+        joinToks [encOutcomeSym m1, encOutcomeSym m2])
+      match parseSyms (2 * ss.length) out with
+      | some cs =>
+        let ins := (ss.map specSym).toArray
+        let ca := cs.toArray
+        let n := ins.size
+        let c1 (j : Nat) : Sym := ca.getD (2 * j) default
+        let c2 (j : Nat) : Sym := ca.getD (2 * j + 1) default
+        let js := List.range n
+        (model, check [
+          ("input-in-domain", js.all fun j => inDomain (ins.getD j default)),
+          ("canonical-form-is-a-symbol", js.all fun j => (c1 j).wellFormed && (c1 j).vOnOrbits),
+          ("canonical-form-isomorphic-to-input", js.all fun j => isomorphic (ins.getD j default) (c1 j)),
+          ("canonical-form-is-a-fixed-point", js.all fun j => c1 j == c2 j),
+          ("equal-canonical-forms-iff-isomorphic", js.all fun j => js.all fun k =>
+              !(j < k) || separationClause (ins.getD j default) (ins.getD k default) (c1 j) (c1 k))])
+      | none => (model, fail "no-canonical-form-returned")
+    | none => bad
   | _ => ("-", fail s!"driver-unknown-op-{op}")
 
 end DrvC03
